@@ -33,7 +33,10 @@ def run_be(PID, prop_file, gen, monitor, nontrivial, rule, n_quick=400, n_thorou
         lines = [c.line() for c in cobjs]
         byline = dict(zip(lines, cobjs))
         ml = ck.run_model(mexe, lines)
-        il = ck.run_impl(iexe, lines, timeout=600, per_case_timeout=15)
+        il = ck.run_impl(iexe, lines, timeout=600, per_case_timeout=15, max_fail=8, stall=15)
+        if 'NOTRUN' in il:   # after 8 crashes/hangs (each one is reported) the remaining cases are not run
+            keep = [k for k, i in enumerate(il) if i != 'NOTRUN']
+            lines = [lines[k] for k in keep]; ml = [ml[k] for k in keep]; il = [il[k] for k in keep]; cobjs = [cobjs[k] for k in keep]
 
         def mon(line, impl):
             c = byline.get(line)
@@ -42,20 +45,27 @@ def run_be(PID, prop_file, gen, monitor, nontrivial, rule, n_quick=400, n_thorou
             return monitor(c, BC.parse_obs(impl)) if c is not None else None
 
         def shrink(line, mode):
+            """ddmin on the command list; a trial gets 3 s (a case runs in milliseconds, a hanging variant must not
+            cost the whole timeout) and the whole shrink 90 s of wall clock"""
+            import time
             c0 = byline[line]
+            t_end = time.time() + 90
             def mk(cmds):
                 c = copy.copy(c0); c.cmds = list(cmds); return c
+            def run1(l):
+                return ck.run_impl(iexe, [l], per_case_timeout=3)[0]
             def msg_of(c):
-                l = c.line(); i = ck.run_impl(iexe, [l], per_case_timeout=15)[0]
+                i = run1(c.line())
                 if i.startswith(('CRASH', 'HANG', 'NOOUTPUT')): return i.split()[0]
                 m = monitor(c, BC.parse_obs(i))
                 return None if m is None else ''.join(ch for ch in m if not ch.isdigit())[:40]
             orig = msg_of(c0) if mode == 'monitor' else None
             def fails(cmds):
+                if time.time() > t_end: return False
                 c = mk(cmds)
                 if mode == 'monitor':
                     return msg_of(c) == orig          # the same kind of failure, not just any failure
-                l = c.line(); i = ck.run_impl(iexe, [l], per_case_timeout=15)[0]
+                l = c.line(); i = run1(l)
                 return ck.run_model(mexe, [l])[0] != i
             return mk(ddmin(c0.cmds, fails, max_tests=150)).line()
 
